@@ -100,6 +100,8 @@ type plScenario struct {
 	PointInAddPartition bool // the per-handler dropped-collection probe inside AddPartition is a scheduling point
 	MsgPosPChannel bool // message positions name the source pchannel (as the MQ layer does) instead of the vchannel
 	HeavyBound int // lower deviation bound for a scenario with many streams
+	PartAppearsOnAnnounce bool // the source catalog lists a named partition only from the moment its creation is announced (addpart driver)
+	Kafka      bool // the downstream is Kafka: no downstream catalog, the source's own ids / channels / partitions address the messages
 	Strict     bool // strict cost model for this scenario: every choice other than the default one costs a deviation (arrival orders included)
 	Hooks      string // which verif yield points park: "" = pack.computed + barrier.signal, "all" = every hook
 	Bound      *int // deviation bound override for this scenario
@@ -185,6 +187,37 @@ func (t *plTarget) GetDatabaseName(ctx context.Context, coll, db string) (string
 type plMetaOp struct {
 	api.DefaultMetaOp
 	colls map[int64]*plColl
+	// hidden: named partitions the source catalog does not list yet (they appear when their creation is announced)
+	hidden func(part string) bool
+}
+
+// GetAllPartition: the source catalog's partitions (the Kafka downstream has no catalog of its own: the channel manager
+// takes partition ids from here)
+func (m *plMetaOp) GetAllPartition(ctx context.Context, filter api.PartitionFilter) ([]*pb.PartitionInfo, error) {
+	var ids []int64
+	for id := range m.colls {
+		ids = append(ids, id)
+	}
+	sort.Slice(ids, func(i, j int) bool { return ids[i] < ids[j] })
+	var out []*pb.PartitionInfo
+	for _, id := range ids {
+		c := m.colls[id]
+		names := []string{"_default"}
+		for n := range c.Parts {
+			if m.hidden == nil || !m.hidden(n) {
+				names = append(names, n)
+			}
+		}
+		sort.Strings(names)
+		for _, n := range names {
+			pi := &pb.PartitionInfo{PartitionID: c.partID(n), PartitionName: n, CollectionId: c.ID, State: pb.PartitionState_PartitionCreated}
+			if filter != nil && filter(pi) {
+				continue
+			}
+			out = append(out, pi)
+		}
+	}
+	return out, nil
 }
 
 func (m *plMetaOp) GetCollectionNameByID(ctx context.Context, id int64) string {
@@ -379,6 +412,7 @@ type plRun struct {
 	events  []*api.ReplicateAPIEvent
 	mapSnaps       []map[string]string // channel assignment (mapping key -> image) at every scheduling point
 	dropSeen       chan struct{} // closed when the first drop request has been issued
+	announced      map[string]bool // partitions whose creation has been announced
 	stopSeen       chan struct{} // closed when a resume driver has stopped its collection
 	stopOnce       sync.Once
 	dropSeenClosed bool
@@ -444,6 +478,7 @@ func plExecute(t *testing.T, sc *plScenario, ctl *sched.Ctl) *plRun {
 		driverErr: map[string]error{}, driverDone: map[string]bool{}, wrapped: map[*replicateChannelHandler]bool{}, inAddPart: map[int64]bool{}, inStart: map[int64]string{}, replicateID: fmt.Sprintf("rid%d", plExecSeq), clockLeft: sc.Clock}
 	r.dropSeen = make(chan struct{})
 	r.stopSeen = make(chan struct{})
+	r.announced = map[string]bool{}
 	r.mq = fakemq.New(plSched{r})
 	r.mq.ParkRegister = sc.ParkRegister
 	r.target = &plTarget{colls: map[string]*model.CollectionInfo{}}
@@ -458,6 +493,13 @@ func plExecute(t *testing.T, sc *plScenario, ctl *sched.Ctl) *plRun {
 		}
 	}
 	mo := &plMetaOp{colls: map[int64]*plColl{}}
+	if sc.PartAppearsOnAnnounce {
+		mo.hidden = func(part string) bool {
+			r.hmu.Lock()
+			defer r.hmu.Unlock()
+			return !r.announced[part]
+		}
+	}
 	seq := 0
 	for _, c := range sc.Colls {
 		mo.colls[c.ID] = c
@@ -500,10 +542,15 @@ func plExecute(t *testing.T, sc *plScenario, ctl *sched.Ctl) *plRun {
 			r.pt("conncheck:"+who, "unlocked", false)
 		}
 	}
-	cm, err := NewReplicateChannelManager(r.mq, fac, r.target, config.ReaderConfig{
+	var tgt api.TargetAPI = r.target
+	downstream := "milvus"
+	if sc.Kafka {
+		tgt, downstream = nil, "kafka" // (as newReplicateEntity does for a task without a Milvus address)
+	}
+	cm, err := NewReplicateChannelManager(r.mq, fac, tgt, config.ReaderConfig{
 		MessageBufferSize: 256, TTInterval: 500, Retry: config.RetrySettings{RetryTimes: sc.retryTimes(), InitBackOff: 1, MaxBackOff: 1},
 		SourceChannelNum: sc.SrcN, TargetChannelNum: sc.TgtN, ReplicateID: r.replicateID,
-	}, mo, rm, nil, "milvus")
+	}, mo, rm, nil, downstream)
 	if err != nil {
 		t.Fatal(err)
 	}
@@ -577,6 +624,7 @@ func plExecute(t *testing.T, sc *plScenario, ctl *sched.Ctl) *plRun {
 				r.wrapHandlers()
 				r.hmu.Lock()
 				r.inAddPart[schedGoid()] = true
+				r.announced[d.Part] = true
 				r.hmu.Unlock()
 				err = r.mgr.AddPartition(tctx, &model.DatabaseInfo{ID: 1, Name: c.DB}, c.info(),
 					&pb.PartitionInfo{PartitionID: c.partID(d.Part), PartitionName: d.Part, CollectionId: c.ID, PartitionCreatedTimestamp: plTs(950, 0), State: d.PartState})
@@ -762,6 +810,9 @@ func (c *plColl) tgtPartID(name string) int64 {
 }
 
 func (r *plRun) applyEvent(e *api.ReplicateAPIEvent) {
+	if r.sc.Kafka {
+		return // no downstream catalog
+	}
 	r.target.mu.Lock()
 	defer r.target.mu.Unlock()
 	var c *plColl
